@@ -137,3 +137,12 @@ def check_case(case, tier):
         labels.append("marker")
     sample = {"fmt": fmt, "lines": case["lines"][:4], "n_data": len(case["expected"])}
     return CaseResult(failures, bool(nondata or feats), labels, sample=sample)
+
+
+def post_phase(tier, seed):
+    """Thorough tier: coverage-guided supplement (atheris) over the same oracle, empty starting corpus."""
+    if tier != "thorough":
+        return {}
+    from ..fuzz import supplement
+
+    return supplement(PROPERTY, seed, 60000)
